@@ -181,3 +181,17 @@ Theorem C02_source_view_delegations :
   lookup "AsRef<[T]>::as_ref" gen_delegations = Some (DView (VAsSlice "self")) /\
   lookup "AsMut<[T]>::as_mut" gen_delegations = Some (DView (VAsMutSlice "self")).
 Proof. rewrite !tie_deleg_of. repeat split. Qed.
+
+(* from_array / into_array (by value: the size-checked const_transmute) and AsRef / AsMut<[T; U]>
+   (a transmute of the reference) as they stand in the source now (coq/gen/GenSigs.v); fourteen
+   functions of lib.rs / impls.rs / sequence.rs have a body that is one reinterpretation, no more *)
+From GA Require Import SigTie.
+From GAGen Require Import GenSigs.
+Local Open Scope string_scope.
+Theorem C02_source_array_casts :
+  transmute_of "GenericArray::from_array" = Some ("const_transmute", "value") /\
+  transmute_of "GenericArray::into_array" = Some ("const_transmute", "self") /\
+  transmute_of "GenericArray::AsRef<[T; U]>::as_ref" = Some ("transmute", "self") /\
+  transmute_of "GenericArray::AsMut<[T; U]>::as_mut" = Some ("transmute", "self") /\
+  List.length gen_transmutes = 14%nat.
+Proof. repeat split. Qed.
